@@ -75,6 +75,53 @@ CHECKS = {
             "plus faulty discovery replies; the reference agent's time-window verdict over the history is the oracle, with "
             "bounded recovery after a discontinuity instead of impossible demands.",
             "deterministic simulation: virtual time (years per run), agent reboot/clock-step faults, history oracle with bounded recovery"),
+    "C13": ("fault_enumeration", "6 C13",
+            "All 1 554 sequences of per-attempt outcomes {reply in time, no reply, late reply, two replies, ICMP/OS error, fatal "
+            "socket error} for retries 1..4 are enumerated against the shipped send_udp / SNMPClientProtocol on the simulated "
+            "transport under virtual time (thorough: x 4 timeouts x 8 latency seeds, directly and through Client.get); oracle: "
+            "transmission count, payload identity, exact retry spacing and return/Timeout instants in virtual time, every socket "
+            "closed afterwards.",
+            "deterministic simulation: exhaustive per-attempt fault sequences on a simulated datagram transport, virtual-time arithmetic oracle"),
+    "C14": ("exploration", "6 C14",
+            "2-6 operations started together on one shared client or on 2-3 clients on one loop, v2c and v3 authPriv (concurrent "
+            "discovery); the schedule is the latency of every response datagram: all k! answer orders for groups of "
+            "single-exchange operations (Lehmer-coded run index), seeded orders for groups with walks, plus loss/dup/late "
+            "replies; oracle: each outcome equals its solo twin run, agents saw only their own client's credentials, no "
+            "request rejected.",
+            "deterministic simulation: schedule exploration through per-datagram delivery times (complete permutations for small groups), solo-twin oracle"),
+    "C15": ("exploration", "6 C15",
+            "All eleven wrapper operations over databases holding every value type; the wrapper call and the raw call see "
+            "byte-identical exchanges (exact twin through determinism); oracle: deep type walk (no x690 type anywhere, keys "
+            "included) and equality with an independent pythonisation of the agent's typed values. No fault dimension.",
+            "deterministic simulation: wrapper vs. raw twin run against the reference agent, independent pythonisation oracle"),
+    "C16": ("exploration", "6 C16",
+            "Seeded conceptual tables (columns, sparsity, 0-12 rows, 1-4 index components incl. mixed arity, neighbours before/"
+            "after, adjacent second table, end of view), bulk sizes and per-response GETBULK truncation policies, optional loss; "
+            "table(entry), bulktable(table) and both wrapper variants must each equal the generated table.",
+            "deterministic simulation: generated table as reference model, four fetch variants under seeded agent truncation and loss"),
+    "C18": ("exploration", "6 C18",
+            "Seeded nested histories (depth <= 4) of configure / reconfigure blocks left normally, by an exception or by a failing "
+            "request / requests / requests into a partition / unknown settings over timeout, retries, credentials of the same and "
+            "of another family, context; snapshot-stack model checked after every step against client.config, against what the "
+            "recording sender seam saw and against the datagram decoded by the independent decoder; partition: Timeout after "
+            "exactly retries x timeout virtual seconds.",
+            "deterministic simulation: operation histories vs. snapshot-stack model, sender-seam and wire oracle, partition fault under virtual time"),
+    "C19": ("exploration", "6 C19",
+            "The shipped register_trap_callback/listen/SNMPTrapReceiverProtocol bind a simulated socket; emitters (IPv4 and IPv6 "
+            "peers) send reference-encoded SNMPv2-Traps mixed with foreign-community, truncated, garbage, bit-flipped and "
+            "other-version datagrams through a network that loses, duplicates and reorders; slow and raising callbacks; oracle: "
+            "exactly one callback per arrival of a well-formed matching trap with origin and bindings, none for foreign/"
+            "malformed ones, listener alive afterwards (counted-work budget for the whole run).",
+            "deterministic simulation: trap emitters over a lossy/duplicating/reordering simulated network, per-arrival delivery oracle"),
+    "C20": ("fault_enumeration", "6 C20",
+            "For each base message (v1/v2c/v3 responses at all levels, discovery replies, USM reports, a trap) produced in "
+            "simulation: every single-bit flip, every truncation, every octet value at every TLV header position (13-value "
+            "dictionary in quick), seeded pairs/triples, indefinite lengths, random strings up to 65507 octets and deep "
+            "nesting are delivered by the rewrite fault (before authentication on the wire, after authentication by the agent "
+            "mutating the scoped PDU before encrypting/signing); oracle: counted work (function entries, calls, loop jumps via "
+            "sys.monitoring) <= A + 200 x len, traced memory <= 16 MiB + 64 x len, outcome a result or an exception, and the "
+            "same client's next request behaves as in the unmutated run.",
+            "deterministic simulation: exhaustive datagram-corruption faults with deterministic work/memory accounting and follow-up usability check"),
 }
 
 NOT_APPLICABLE = {
